@@ -141,14 +141,14 @@ LEN_HARNESS(deser_as_called, (MINB > 1 ? 1 : 0), (MINB > 1 ? MINB - 1 : 0)) {
 }
 #else
 // bool: bit-packed LSB first, ceil(count/8) bytes; BoolPropCodec::decode_n calls need() itself. n = 17 entities.
-LEN_HARNESS(deser_bool, 0, 3) {
+// span {first, count}: one query per span (count = v_param(1), first = v_param(2)), payload length 0..3 by selector dispatch
+// (a symbolic span makes CBMC's unwinding of the rotated nested loop in decode_n diverge: spurious unwinding failures).
+static void deser_bool_case(unsigned first, unsigned count, unsigned len) {
   PropertyCodecs pc;
   const PropertyDecoderBase *d = lookup(pc);
   V_ASSERT(d != nullptr);
   PropertyStorageT<bool> st(nullptr, "p", EntityType::Vertex, false, true);
   st.resize(17);
-  unsigned first = v_nondet_below(17), count = v_nondet_below(18);
-  v_assume(count >= 1 && 17 - first >= count);             // the checks of read_prop_chunk
   std::vector<uint8_t> vec_(g_raw, g_raw + len);
   Decoder dec(std::move(vec_));
   int out;
@@ -163,6 +163,12 @@ LEN_HARNESS(deser_bool, 0, 3) {
     if (k < first || k >= first + count) V_ASSERT(st[k] == false);                      // nothing else is written
     v_witness("deserialize bool: accepted");
   } else v_witness("deserialize bool: parse_error");
+}
+template <unsigned I> struct CaseBool { static __attribute__((noinline)) void run() { deser_bool_case(v_param(2), v_param(1), I); } };
+extern "C" void harness_deser_bool() {   // shard: count = v_param(1) in 1..17, first = v_param(2) in 0..17-count
+  for (unsigned i = 0; i < 3; ++i) g_raw[i] = v_nondet_u8();
+  unsigned sel = v_nondet_below(4);
+  dispatch_seq<CaseBool>(sel, std::make_integer_sequence<unsigned, 4>{});
 }
 #endif
 
